@@ -96,9 +96,9 @@ CHECKS["C20"] = dict(
 
 CHECKS["C15"] = dict(
     engine="E1", category="model_checking", design="4/C15",
-    technique="explicit-state exploration (fork-checkpointed DFS) of trust-anchor proxy/signer exchanges on the real aggregates, with the harness carrying the messages: genuine, replayed, stale, re-ordered, cross-wired and modified requests and responses, two children requesting concurrently, a key roll of a child in between",
-    text="Every sequence (up to the completed depth) of: child c1/c2 synchronising with the TA, the proxy opening a signer request, the signer processing the latest or the previous pooled request (genuine, clear text altered, nonce altered, signed part swapped with the other pooled request or with a message signed by the signer's own key), the proxy being handed the latest or previous pooled response (genuine, nonce rewritten to the open one, child responses dropped, revision number lowered, signed part swapped with the other pooled response or with a message signed by the proxy's key), a key roll of c1: a request is opened only when none is open; the signer processes only unaltered requests signed by the proxy; the proxy accepts only the unaltered response carrying the open nonce; refused messages leave proxy/signer unchanged; no key has an open request and an open response at once and a fetched response leaves the proxy; TA manifest numbers in proxy, signer and repository never decrease and a changed manifest has a higher number; the tree stays relying-party valid.",
-    note=E1_NOTE + " The scheduler is not run in this model (it would perform the whole exchange itself); hook H7 exposes the signer half of sync_ta_proxy_signer_if_possible. Signer re-initialisation is not reachable through the public API of an embedded TA and is not explored.")
+    technique="explicit-state exploration (fork-checkpointed DFS) of trust-anchor proxy/signer exchanges on the real aggregates, with the harness carrying the messages: genuine, replayed, stale, re-ordered, cross-wired and modified requests and responses, two children requesting concurrently, a key roll of a child and a re-initialisation of the signer in between",
+    text="Every sequence (up to the completed depth) of: child c1/c2 synchronising with the TA, the proxy opening a signer request, the signer processing the latest or the previous pooled request (genuine, clear text altered, nonce altered, signed part swapped with the other pooled request or with a message signed by the signer's own key), the proxy being handed the latest or previous pooled response (genuine, nonce rewritten to the open one, child responses dropped, revision number lowered, signed part swapped with the other pooled response or with a message signed by the proxy's key), a key roll of c1, a re-initialisation of the signer (same TA key, new identity) followed by the proxy's signer update: a request is opened only when none is open; the signer processes only unaltered requests signed by the proxy; the proxy accepts only the unaltered response carrying the open nonce and signed by the signer it is currently associated with (responses of the retired signer are refused); refused messages leave proxy/signer unchanged; no key has an open request and an open response at once and a fetched response leaves the proxy; TA manifest numbers in proxy, signer and repository never decrease and a changed manifest has a higher number; the tree stays relying-party valid.",
+    note=E1_NOTE + " The scheduler is not run in this model (it would perform the whole exchange itself); hook H7 exposes the signer half of sync_ta_proxy_signer_if_possible. Signer re-initialisation uses hook H7 (drop + init with the same key + update of the proxy).")
 
 CHECKS["C08"] = dict(
     engine="E3", category="model_checking", design="4/C08",
